@@ -333,8 +333,9 @@ DoRefresh(s, o) ==
   ELSE LET s0 == ExpireObj(s, o) f == DoFlush(s0) IN
        IF f.ret # "ok" THEN f
        ELSE IF s.needrb THEN R(f.st, "PendingRollbackError")
+       ELSE IF ~InMapS(f.st, o) /\ "gsw" \notin Dev THEN R(f.st, "InvalidRequestError")   \* re-validated after the autoflush (no SELECT)
        ELSE LET s1 == Sql(AutoBegin(f.st), 1) IN
-            IF s1.work[s1.key[o]] = Absent \/ (~InMapS(s1, o) /\ "gsw" \notin Dev) THEN R(s1, "InvalidRequestError")
+            IF s1.work[s1.key[o]] = Absent THEN R(s1, "InvalidRequestError")
             ELSE R(LoadObj(s1, o), "ok")      \* deviation gsw: the autoflush switched the row to another object; o (deleted) is refreshed from it
 \* Session._remove_newly_deleted([o]) for an identity-map entry whose row turned out to be gone
 RemoveNewlyDeleted(s, o) ==
